@@ -1123,6 +1123,40 @@ impl WorldA {
                     self.deliver_bytes(i, d, &b, false, obs);
                 }
             }
+            K_FORGEFAT => {
+                // a hostile peer whose slices are otherwise consistent but carry more (or, for inner slices, other) bytes than
+                // a slice holds: a last slice of 1201..2500 bytes, an inner slice of 1199 or 1201 bytes; also as the only
+                // slice of a one-slice message, also after valid slices of the same message
+                let i = op.a as usize % ncl;
+                let d = (op.b % 2) as usize;
+                let n = self.nchan(i, d);
+                if n == 0 {
+                    return;
+                }
+                let ch = (op.c % 7) as usize % n;
+                let c = &self.conns[i].st[d][ch];
+                let cid = c.cfg.id;
+                let reliable = c.reliable();
+                let base = c.base_id + c.msgs.len() as u64;
+                let mid = base + (op.c / 7) % 4;
+                let nsl = 1 + ((op.c / 28) % 3) as usize;
+                let idx = ((op.c / 84) % nsl as u64) as usize;
+                let plen = if idx == nsl - 1 {
+                    [1201usize, 1250, 1290, 2500, 1200][(op.d % 5) as usize]
+                } else {
+                    [1199usize, 1201, 1200][(op.d % 3) as usize]
+                };
+                let slice = Slice { message_id: mid, slice_index: idx, num_slices: nsl, payload: vec![0xFAu8; plen].into() };
+                let sequence = 3_000_000 + op.d % 100_000;
+                let pkt = if reliable { Packet::ReliableSlice { sequence, channel_id: cid, slice } } else { Packet::UnreliableSlice { sequence, channel_id: cid, slice } };
+                let mut buf = [0u8; 4096];
+                let mut o = super::model::octets_shim::OctetsMut::with_slice(&mut buf);
+                if let Ok(len) = pkt.to_bytes(&mut o) {
+                    obs.count("fault.forge_fat_slice");
+                    let b = buf[..len].to_vec();
+                    self.deliver_bytes(i, d, &b, false, obs);
+                }
+            }
             K_FORGECLASH => {
                 // a hostile peer that breaks id discipline on a reliable channel: one of a few message ids just above the cursor
                 // is used for a small message and for sliced messages of changing slice counts, in any order
